@@ -17,7 +17,7 @@ func genC03(t *rapid.T) *Case {
 	// inline mix biased towards the kinds the property names, javascript: anchors in particular;
 	// hidden inline spans exercise "every visible word".
 	p.Inline = []wc{{"text", 40}, {"b", 5}, {"i", 4}, {"em", 4}, {"strong", 4}, {"span", 5}, {"u", 3}, {"code", 4},
-		{"font", 4}, {"a", 8}, {"ajs1", 9}, {"ajsn", 8}, {"br", 4}, {"brbr", 5}, {"nest", 4}, {"hid", 2}, {"brlast", 4}}
+		{"font", 4}, {"a", 8}, {"ajs1", 9}, {"ajsn", 8}, {"br", 4}, {"brbr", 5}, {"nest", 4}, {"hid", 2}, {"brlast", 4}, {"aempty", 5}}
 	p.Top = append(append([]wc{}, p.Top...), wc{"para", 20}, wc{"list", 6}, wc{"quote", 5}, wc{"ltable", 4}, wc{"dtable", 3})
 	p.Core = append(append([]wc{}, p.Core...), wc{"para", 20}, wc{"list", 6}, wc{"quote", 5}, wc{"ltable", 4}, wc{"dtable", 3})
 	p.LessThanInCaptions = true
